@@ -156,7 +156,7 @@ def _work(args):
     m = machine_for(prop)
     out = {'runs': 0, 'ops': 0, 'compared': 0, 'fired': {}, 'probes': {}, 'sigs': set(),
            'violations': [], 'known': {}, 'digests': {}, 'samples': [], 'timeouts': 0, 'nviol': 0,
-           'range': [lo, lo], 'crashes': [], 'opmix': {}}
+           'range': [lo, lo], 'crashes': [], 'opmix': {}, 'shapes': set()}
     for idx in range(lo, hi):
         if time.time() > deadline:
             break
@@ -175,6 +175,7 @@ def _work(args):
             out['probes'][k] = out['probes'].get(k, 0) + v
         if res['compared'] > 0 or any(res['fired'].get(k, 0) for k in getattr(m, 'FAULT_KINDS', ())):
             out['sigs'].add(m.signature(run))
+            out['shapes'].add(m.shape(run) if hasattr(m, 'shape') else m.signature(run))
         if idx in want_digests:
             out['digests'][idx] = res['digest']
         if len(out['samples']) < 1 and idx == lo:
@@ -194,6 +195,7 @@ def _work(args):
                 if len(out['violations']) < 8:
                     out['violations'].append({'run_index': idx, 'violation': v})
     out['sigs'] = sorted(out['sigs'])
+    out['shapes'] = sorted(out['shapes'])
     out['reach'] = reach.drain()
     return out
 
@@ -361,7 +363,7 @@ def check(prop, tier, verif_seed, jobs=None, runs=None, budget=None):
              for lo in range(0, nruns, chunk)]
     agg = {'runs': 0, 'ops': 0, 'compared': 0, 'fired': {}, 'probes': {}, 'sigs': set(), 'violations': [],
            'known': {}, 'digests': {}, 'samples': [], 'timeouts': 0, 'nviol': 0, 'max_index': 0,
-           'reach': set(), 'crashes': [], 'opmix': {}}
+           'reach': set(), 'crashes': [], 'opmix': {}, 'shapes': set()}
     ctx = multiprocessing.get_context('fork')
     try:
         with concurrent.futures.ProcessPoolExecutor(max_workers=jobs, mp_context=ctx) as ex:
@@ -379,6 +381,7 @@ def check(prop, tier, verif_seed, jobs=None, runs=None, budget=None):
                 for k, v in out['known'].items():
                     agg['known'][k] = agg['known'].get(k, 0) + v
                 agg['sigs'].update(out['sigs'])
+                agg['shapes'].update(out['shapes'])
                 agg['reach'].update(tuple(h) for h in out.get('reach', ()))
                 agg['digests'].update(out['digests'])
                 if len(agg['samples']) < 3:
@@ -469,8 +472,12 @@ def check(prop, tier, verif_seed, jobs=None, runs=None, budget=None):
         'property_id': prop, 'tier': tier, 'seed': verif_seed, 'level': 'exploration',
         'coverage': {
             'evaluations': agg['runs'],
-            'distinct_nontrivial': len(agg['sigs']),
-            'rule': m.RULE.get(prop, m.RULE.get('*')) if isinstance(getattr(m, 'RULE', None), dict) else getattr(m, 'RULE', ''),
+            'distinct_nontrivial': len(agg['shapes']),
+            'distinct_run_signatures': len(agg['sigs']),
+            'rule': (m.RULE.get(prop, m.RULE.get('*')) if isinstance(getattr(m, 'RULE', None), dict) else getattr(m, 'RULE', ''))
+            + " distinct_nontrivial counts the coarse classes of non-trivial runs: fault/backend configuration x input "
+              "shape (number of trains, of empty and of one-spike trains, ties, edge spikes) x SET of operation kinds and "
+              "measure families; distinct_run_signatures counts the fine signature described above.",
             'samples': agg['samples'][:3],
             'operations_executed': agg['ops'],
             'oracle_comparisons': agg['compared'],
